@@ -21,13 +21,20 @@ Definition pos_ok (hevc : bool) (p : upkt) : Prop :=
 Definition pkt_ok (k : ukind) (p : upkt) : Prop :=
   pkt_wf p /\ match k with UAvc => pos_ok false p | UHevc => pos_ok true p | _ => True end.
 
-Definition unp_ok (u : unpacker) : Prop := w32 (Z.quot (uk_clock u) 1000) <> 0.
+(* the clock rate passed InitWithSdp's guard and is a Go int *)
+Definition clock_ok (clock : Z) : Prop :=
+  w32 (Z.quot clock 1000) <> 0 /\ (-9223372036854775808 <= clock < 9223372036854775808)%Z.
+Definition unp_ok (u : unpacker) : Prop := clock_ok (uk_clock u).
 
-Lemma ts_ms_ok site clock ts : w32 (Z.quot clock 1000) <> 0 -> exists z, ts_ms site clock ts = Ok z.
-Proof. intros H. unfold ts_ms. apply N.eqb_neq in H. rewrite H. eauto. Qed.
+Lemma clock_nonzero clock : clock_ok clock -> clock <> 0%Z.
+Proof. intros [H _] ->. apply H. reflexivity. Qed.
 
-Lemma clock_nonzero clock : w32 (Z.quot clock 1000) <> 0 -> clock <> 0%Z.
-Proof. intros H ->. apply H. reflexivity. Qed.
+Lemma ts_ms_ok site clock ts : clock_ok clock -> exists z, ts_ms true site clock ts = Ok z.
+Proof.
+  intros H. pose proof (clock_nonzero clock H) as Hz. destruct H as [_ Hr]. unfold ts_ms, w64.
+  destruct (Z.to_N (clock mod 18446744073709551616) =? 0) eqn:E; [|eauto].
+  apply N.eqb_eq in E. exfalso. lia.
+Qed.
 
 (* TryUnpackOne returned true: the remaining list is a proper suffix *)
 Definition unpack_good (l : list upkt) (r : res (option unpack_out)) : Prop :=
@@ -39,7 +46,7 @@ Definition unpack_good (l : list upkt) (r : res (option unpack_out)) : Prop :=
 
 (* ---------------------------------------------------------------------- *)
 Lemma try_unpack_raw_good pt clock l :
-  w32 (Z.quot clock 1000) <> 0 -> Forall pkt_wf l -> unpack_good l (try_unpack_raw pt clock l).
+  clock_ok clock -> Forall pkt_wf l -> unpack_good l (try_unpack_raw true pt clock l).
 Proof.
   intros Hc Hl. destruct l as [|p rest]; cbn [try_unpack_raw]; [exact I|].
   inversion_clear Hl as [|? ? Hp Hr]. destruct (pkt_wf_body p Hp) as (b & t & -> & _). cbn [bind].
@@ -55,9 +62,9 @@ Proof.
   apply andb_true_iff. split; apply N.leb_le; lia.
 Qed.
 
-Lemma aac_multi_ok clock pt ts b tail : w32 (Z.quot clock 1000) <> 0 ->
+Lemma aac_multi_ok clock pt ts b tail : clock_ok clock ->
   forall aus i, Forall (fun a => au_pos a + au_size a <= lenN b) aus ->
-  exists avs, aac_multi clock pt ts b tail i aus = Ok avs.
+  exists avs, aac_multi true clock pt ts b tail i aus = Ok avs.
 Proof.
   intros Hc. induction aus as [|a t IH]; intros i Hall; cbn [aac_multi]; [eauto|].
   inversion_clear Hall as [|? ? Ha Ht].
@@ -67,7 +74,7 @@ Proof.
   destruct (IH (i + 1)%Z Ht) as [avs ->]. cbn [bind]. eauto.
 Qed.
 
-Lemma aac_frag_good clock pt total timestamp : w32 (Z.quot clock 1000) <> 0 ->
+Lemma aac_frag_good clock pt total timestamp : clock_ok clock ->
   forall l seq cache acc count, Forall pkt_wf l ->
   match aac_frag true clock pt total timestamp seq cache acc count l with
   | Ok None => True
@@ -97,7 +104,7 @@ Proof.
 Qed.
 
 Lemma try_unpack_aac_good pt clock l :
-  w32 (Z.quot clock 1000) <> 0 -> Forall pkt_wf l -> unpack_good l (try_unpack_aac true pt clock l).
+  clock_ok clock -> Forall pkt_wf l -> unpack_good l (try_unpack_aac true pt clock l).
 Proof.
   intros Hc Hl. destruct l as [|p rest]; cbn [try_unpack_aac]; [exact I|].
   inversion_clear Hl as [|? ? Hp Hr]. destruct (pkt_wf_body p Hp) as (b & t & -> & _). cbn [bind].
@@ -173,7 +180,7 @@ Qed.
 Definition vpkt_ok (hevc : bool) (p : upkt) : Prop := pkt_wf p /\ pos_ok hevc p.
 
 Lemma try_unpack_avchevc_good hevc pt clock l :
-  w32 (Z.quot clock 1000) <> 0 -> Forall (vpkt_ok hevc) l -> unpack_good l (try_unpack_avchevc true hevc pt clock l).
+  clock_ok clock -> Forall (vpkt_ok hevc) l -> unpack_good l (try_unpack_avchevc true hevc pt clock l).
 Proof.
   intros Hc Hl. destruct l as [|first rest]; cbn [try_unpack_avchevc]; [exact I|].
   inversion_clear Hl as [|? ? [Hwf Hpos] Hr].
@@ -297,7 +304,7 @@ Proof.
   unfold calc_pos_hevc, pos_fua_start, pos_fua_middle, pos_fua_end, pos_ap, pos_single, pos_stapa. cbn [andb].
   destruct (lenN b <? 1) eqn:E1. { exists 0. repeat split; try lia. }
   apply N.ltb_ge in E1. destruct (idx_ok s_calchevc_index b 0) as [b0 ->]; [lia|]. cbn [bind].
-  destruct (hevc_single_type (b0 mod 128 / 2)). { exists 1. repeat split; try lia. }
+  destruct (hevc_single_type true (b0 mod 128 / 2)). { exists 1. repeat split; try lia. }
   destruct (b0 mod 128 / 2 =? 49).
   - destruct (lenN b <? 3) eqn:E3. { exists 0. repeat split; try lia. }
     apply N.ltb_ge in E3. destruct (idx_ok s_calchevc_index b 2) as [b2 ->]; [lia|]. cbn [bind].
